@@ -311,7 +311,16 @@ class CallMixin:
             raise VCError("unbound method call %s" % qual)
         bound = self.bind_args(st, dq, fnode, has_self, args, kwargs, node, m)
         if bound is None: return          # call-shape failure: path ends (TypeError) -> recorded as obligation
-        c = self.find_contract(dq)
+        c = None
+        if has_self and self_sv is not None and isinstance(self_sv.ty, T.Obj):
+            # an inherited method may carry a contract stated for the receiver's own class (verified against that class's schema): prefer it
+            fam_classes = [self_sv.cls] if self_sv.cls else [q for q in R.SCHEMAS[self_sv.ty.family].classes if not q.startswith("ext:")]
+            for q in fam_classes:
+                if q == "%s:%s" % (m, cname): continue
+                c2 = self.find_contract(q + "." + fnode.name)
+                if c2 is not None and (c2.self_type is None or c2.self_type == self_sv.ty):
+                    c = c2; break
+        if c is None: c = self.find_contract(dq)
         if self_sv is not None and c is None and self_sv.cls is not None:
             c = self.find_contract(self_sv.cls + "." + fnode.name)
         if c is not None and not c.inline and not (self.inline_self and dq == self.current_qual and False):
